@@ -145,7 +145,8 @@ def graph_case(draw):
     return c
 
 
-OPS = ["assign", "assign", "assign", "view", "cat", "transformed", "sample", "rsample", "operator", "inplace", "requires_grad", "eval", "anon"]
+HUBS = ("base", "ratios", "root_height", "shifts", "scale.unres", "aff.loc")
+OPS = ["assign", "assign", "assign", "view", "cat", "transformed", "sample", "rsample", "operator", "inplace", "requires_grad", "eval", "anon", "nudge", "nudge"]
 
 # G6: models whose hyper-parameters are written as constants: each becomes a Parameter without an id held by the model
 # alone.  (model id, position among the model's anonymous parameters, path of the constant in the specification, domain)
@@ -212,9 +213,17 @@ def build_spec(c):
             {"id": "gam", "type": "Distribution", "distribution": "torch.distributions.Gamma", "x": [tt.P("a", c["pos"][:2]), tt.P("b", c["pos"][2:])],
              "parameters": {"concentration": tt.P("conc", [2.0, 2.5, 3.0]), "rate": "scale"}},
             {"id": "ln", "type": "Distribution", "distribution": "torch.distributions.LogNormal", "x": "scale", "parameters": {"loc": "loc", "scale": tt.P("s3", [0.8])}},
-            {"id": "joint", "type": "JointDistributionModel", "distributions": ["n1", "n2", "n3", "nbase", "gam", "ln", "scale"]},
+            # transformed parameters over the shared base and over a view of it: a write through any sibling must reach them
+            {"id": "tb", "type": "TransformedParameter", "transform": "torch.distributions.SigmoidTransform", "x": "base"},
+            {"id": "tv", "type": "TransformedParameter", "transform": "torch.distributions.ExpTransform", "x": "v3"},
+            # a concatenation one of whose elements is a transformed parameter with a parameter inside its transform
+            {"id": "aff", "type": "TransformedParameter", "transform": "torch.distributions.AffineTransform", "parameters": {"loc": tt.P("aff.loc", [0.4]), "scale": 2.0},
+             "x": tt.P("aff.x", [0.2, -0.3])},
+            {"id": "ncat", "type": "Distribution", "distribution": "torch.distributions.Normal", "x": [tt.P("ca", [0.5]), "aff"], "parameters": {"loc": tt.P("lcat", [0.1]), "scale": tt.P("scat", [1.7])}},
+            {"id": "joint", "type": "JointDistributionModel", "distributions": ["n1", "n2", "n3", "nbase", "gam", "ln", "scale", "tb", "tv", "ncat"]},
         ]
-        dom = {"base": "real", "loc": "real", "scale.unres": "real", "s2": "pos", "a": "pos", "b": "pos", "conc": "pos", "s3": "pos", "lb": "real", "sb": "pos", "l3": "real", "s3b": "pos"}
+        dom = {"base": "real", "loc": "real", "scale.unres": "real", "s2": "pos", "a": "pos", "b": "pos", "conc": "pos", "s3": "pos", "lb": "real", "sb": "pos", "l3": "real", "s3b": "pos",
+               "aff.loc": "real", "aff.x": "real", "ca": "real", "lcat": "real", "scat": "pos"}
         return spec, dom
     like = c["like"]
     spec = phylo.like_spec(like)
@@ -383,6 +392,8 @@ def body(c):
     spec, dom = build_spec(c)
     dic = load(spec)
     leaves = [l for l in leaves_of(spec) if dom.get(l)]
+    # parameters read by many consumers (through views, concatenations, transforms) are targeted more often
+    leaves = leaves + [l for l in leaves if l in HUBS] * 5
     obs = observables(dic)
     if c.get("observe_heights") is False:
         obs = {k: v for k, v in obs.items() if not k.startswith("branch_lengths:")}
@@ -507,6 +518,25 @@ def body(c):
                     else:
                         p.tensor.add_(op["u"][0] - 0.5)
                 p.fire_parameter_changed()
+
+            _, exc = guarded(f)
+        elif k == "nudge" and leaves:
+            # a move far below any "nothing changed" tolerance a cache could apply (1e-7 relative), by assignment or in place
+            cand = [l for l in leaves if dom[l] in ("pos", "real")]
+            if not cand:
+                continue
+            target = cand[op["t"] % len(cand)]
+            p = dic[target]
+            fac = 1.0 + (1e-7 if op["u"][0] < 0.5 else -1e-7)
+            if op["flag"] or p.tensor.requires_grad:
+                def f():
+                    nv = (p.tensor.detach() * fac).requires_grad_(p.tensor.requires_grad)
+                    p.tensor = nv
+            else:
+                def f():
+                    with torch.no_grad():
+                        p.tensor.mul_(fac)
+                    p.fire_parameter_changed()
 
             _, exc = guarded(f)
         elif k == "requires_grad" and leaves:
